@@ -2,6 +2,7 @@ import HcipyVerif.Lemmas.GridMut
 import HcipyVerif.Lemmas.GridHeap
 import HcipyVerif.Lemmas.GridOld
 import HcipyVerif.Lemmas.GridLayout
+import HcipyVerif.Model.GridShare
 
 /-!
 # C10 — Grid identity: equality is an equivalence consistent with hashing
@@ -267,6 +268,104 @@ theorem shiftF_not_absorbed :
 
 example : (Coords.separated [[0, 1], [5]]).axisHas 0 1 := ⟨[0, 1], rfl, by simp⟩
 example : (Coords.regular [⟨1 / 2, 3, 0⟩]).axisAsym 0 := ⟨⟨1 / 2, 3, 0⟩, rfl, by norm_num⟩
+
+/-- **Equal grids have the same number of axes** (and the same number of points and the same coordinate
+kind): `==` is never a comparison of a common prefix of the axes. -/
+theorem eq_imp_same_ndim (a b : Grid) (h : a.eq b = true) :
+    a.coords.ndim = b.coords.ndim ∧ a.coords.size = b.coords.size ∧ a.coords.kind = b.coords.kind := by
+  refine ⟨?_, ?_, ?_⟩
+  · by_contra hn; rw [ne_of_ndim_ne a b hn] at h; exact absurd h (by decide)
+  · by_contra hn; rw [ne_of_size_ne a b hn] at h; exact absurd h (by decide)
+  · by_contra hn; rw [ne_of_kind_ne a b hn] at h; exact absurd h (by decide)
+
+/-- The projection of a point cloud is not the cloud: an unstructured grid and the grid with one more
+column (same point count, same leading columns) are unequal, in both orders. -/
+theorem prefix_axes_ne (s : System) (cols : List (List Rat)) (z : List Rat) (w w' : Weights) :
+    (Grid.mk s (.unstructured cols) w).eq (Grid.mk s (.unstructured (cols ++ [z])) w') = false ∧
+    (Grid.mk s (.unstructured (cols ++ [z])) w').eq (Grid.mk s (.unstructured cols) w) = false := by
+  constructor <;> apply ne_of_ndim_ne <;> simp [Coords.ndim]
+
+/-! ## Sharing at the level of the `Coords` object (Model/GridShare.lean, executed by the driver) -/
+
+theorem shareCoords_getElem? (grids : Store) (cell : List Nat) (c : Nat) (co : Coords) (j : Nat) :
+    (shareCoords grids cell c co)[j]? =
+      (grids[j]?).map fun h => if cell[j]? = some c then { h with coords := co } else h := by
+  simp [shareCoords, List.getElem?_mapIdx]
+
+/-- **Every holder of the `Coords` object follows a write through it** — whichever holder (or the caller)
+made it: afterwards it reads the new coordinates, with its own coordinate system and weights. -/
+theorem shared_holders_follow (grids : Store) (cell : List Nat) (c : Nat) (co : Coords) (j : Nat) (g : Grid)
+    (hc : cell[j]? = some c) (hg : grids[j]? = some g) :
+    (shareCoords grids cell c co)[j]? = some { g with coords := co } := by
+  simp [shareCoords_getElem?, hc, hg]
+
+/-- Grids on other `Coords` objects (copies, pickles, round trips, `scaled` …) are untouched. -/
+theorem other_cells_untouched (grids : Store) (cell : List Nat) (c : Nat) (co : Coords) (j : Nat)
+    (hc : cell[j]? ≠ some c) : (shareCoords grids cell c co)[j]? = grids[j]? := by
+  rw [shareCoords_getElem?]; cases grids[j]? <;> simp [hc]
+
+/-- **After a write through a shared `Coords` object, equality and hashing agree on all its holders**:
+two holders with the same coordinate system are equal and have the same hash input; holders with different
+systems are unequal (`PolarGrid(g.coords)` against `g`). -/
+theorem shared_holders_eq_hash (grids : Store) (cell : List Nat) (c : Nat) (co : Coords) (j k : Nat) (g h : Grid)
+    (hw : co.WF) (hj : cell[j]? = some c) (hk : cell[k]? = some c) (hg : grids[j]? = some g) (hh : grids[k]? = some h) :
+    ∃ g' h', (shareCoords grids cell c co)[j]? = some g' ∧ (shareCoords grids cell c co)[k]? = some h' ∧
+      g'.coords = co ∧ h'.coords = co ∧
+      (g.system = h.system → g'.eq h' = true ∧ g'.hashInput = h'.hashInput) ∧
+      (g.system ≠ h.system → g'.eq h' = false) := by
+  refine ⟨_, _, shared_holders_follow grids cell c co j g hj hg, shared_holders_follow grids cell c co k h hk hh, rfl, rfl, ?_, ?_⟩
+  · intro hs
+    have he : ({ g with coords := co } : Grid).eq { h with coords := co } = true := by
+      have := eq_refl { g with coords := co } hw
+      simpa [Grid.eq, hs] using this
+    exact ⟨he, eq_imp_hashInput_eq _ _ he⟩
+  · intro hs; exact ne_of_system_ne _ _ hs
+
+example : (Coords.separated [[0, 1], [5]]).WF := by decide
+
+/-- **Coherence is re-established by the propagation**: if all grids other than the writer `i` that share a
+`Coords` object agree, then after slot `i`'s coordinates are propagated to the holders of its object, *all*
+grids that share an object read the same coordinates. -/
+theorem shareCoords_coherent (grids : Store) (cell : List Nat) (i c : Nat) (gi : Grid)
+    (hi : cell[i]? = some c) (hgi : grids[i]? = some gi)
+    (hco : ∀ j k g h, j ≠ i → k ≠ i → cell[j]? = cell[k]? → cell[j]? ≠ none → grids[j]? = some g → grids[k]? = some h →
+      g.coords = h.coords) :
+    Coherent (shareCoords grids cell c gi.coords) cell := by
+  intro j k g h hjk hn hg hh
+  rw [shareCoords_getElem?] at hg hh
+  cases hgj : grids[j]? with
+  | none => simp [hgj] at hg
+  | some g0 =>
+    cases hgk : grids[k]? with
+    | none => simp [hgk] at hh
+    | some h0 =>
+      simp only [hgj, hgk, Option.map_some, Option.some.injEq] at hg hh
+      by_cases hc : cell[j]? = some c
+      · have hc' : cell[k]? = some c := hjk ▸ hc
+        rw [if_pos hc] at hg; rw [if_pos hc'] at hh
+        rw [← hg, ← hh]
+      · have hc' : ¬ cell[k]? = some c := hjk ▸ hc
+        rw [if_neg hc] at hg; rw [if_neg hc'] at hh
+        subst hg; subst hh
+        have hji : j ≠ i := fun e => hc (e ▸ hi)
+        have hki : k ≠ i := fun e => hc' (e ▸ hi)
+        exact hco j k _ _ hji hki hjk hn hgj hgk
+
+example : Coherent (shareCoords [⟨.cartesian, .separated [[0, 2]], .none⟩] [0] 0 (.separated [[0, 2]])) [0] :=
+  shareCoords_coherent _ _ 0 0 ⟨.cartesian, .separated [[0, 2]], .none⟩ rfl rfl (by
+    intro j k g h hj _ _ _ hg _
+    match j, hj, hg with
+    | j + 1, _, hg => simp at hg)
+
+/-- **A memoised hash that is dropped by the grid's own API only goes stale** (the defect class, proved
+counterexample): `b` is hashed, then another holder of the same `Coords` object scales it; `b` follows, is
+equal to a freshly built grid with the same coordinates, and answers the old hash. -/
+theorem Bad.memo_hash_stale :
+    ∃ (b : Bad.MGrid) (co : Coords), co.WF ∧
+      let b1 := (b.hash).2.follow co
+      let fresh : Bad.MGrid := { grid := { b.grid with coords := co } }
+      b1.grid.eq fresh.grid = true ∧ (b1.hash).1 ≠ (fresh.hash).1 :=
+  ⟨{ grid := ⟨.cartesian, .separated [[0, 1]], .none⟩ }, .separated [[0, 2]], by decide, by decide⟩
 
 /-! ## Value semantics of the store: earlier copies are untouched -/
 
